@@ -144,11 +144,19 @@ def run(F, rep, tier):
         d = {}
         for conds, v in outs:
             k = [c0[1] for c0 in conds if c0 and c0[0] == "teq"]
-            d[k[0] if k else "?"] = v
+            kk = k[0] if k else "?"
+            if kk in d and d[kk] != v:
+                # several different results for one outcome of the ternary equality: the operator does more than negate / wrap it
+                d[kk] = ("multi", d[kk], v)
+            else:
+                d[kk] = v
         res[fn] = d
     want_eq = {"Some": value("Boolean", sym("r")), "None": value("Null")}
     want_nq = {"Some": value("Boolean", ("not", sym("r"))), "None": value("Null")}
     for fn, want in (("build_eq", want_eq), ("build_nq", want_nq)):
+        for case in sorted(set(res[fn]) - {"Some", "None"}):
+            rep.violation(r2, "%s:%s" % (fn, case), "%s produces %r on a path that does not consult the ternary equality at all: `!=`/`=` must be decided by eval_ternary_equality alone"
+                          % (fn, res[fn][case]), "feel-evaluator/src/builders.rs %s" % fn)
         for case in ("Some", "None"):
             got = res[fn].get(case)
             if got == want[case]:
@@ -455,6 +463,51 @@ def temporal_order_rule(F, rep):
                 rep.violation(rid, key, "temporal between(x, lo, hi, %s, %s) i.e. x in %slo..hi%s: %s" % (lc, rc, "[" if lc else "(", "]" if rc else ")", "; ".join(bad[:4])), "feel/src/temporal/mod.rs")
             else:
                 rep.ok(rid, key, "16 ordering combinations agree with %s x, x %s hi" % ("lo <=" if lc else "lo <", "<=" if rc else "<"))
+    # the std comparison traits of the temporal types (used by `<`, `<=`, ... and by `=` on these kinds) must agree with compare() as well
+    wrappers = {n for n in F.hir if re.match(r"^dmntk_feel::temporal::(date::FeelDate|FeelTime|FeelDateTime)::(equal|before|before_or_equal|after|after_or_equal)$", n)}
+
+    def make_hook2(o):
+        flip = {"Less": "Greater", "Greater": "Less", "Equal": "Equal", None: None}
+
+        def hook(callee, args, st):
+            if callee == helpers["compare"] and len(args) == 2:
+                ra, rb = repr(args[0]), repr(args[1])
+                a_first = "'a'" in ra and "'b'" in rb and "'b'" not in ra and "'a'" not in rb
+                b_first = "'b'" in ra and "'a'" in rb and "'a'" not in ra and "'b'" not in rb
+                if not (a_first or b_first):
+                    return ("unknown", "compare on unexpected operands")
+                oo = o if a_first else flip[o]
+                return value("None") if oo is None else value("Some", value(oo))
+            if callee and len(args) == 2 and (callee.endswith("::FeelDate as core::cmp::PartialEq>::eq") or callee == "core::cmp::impls::<impl core::cmp::PartialEq<&B> for &A>::eq") \
+                    and {repr(args[0]), repr(args[1])} == {repr(sym("a")), repr(sym("b"))}:
+                return mk_bool(o == "Equal")      # field-wise equality of two dates (`self == other`) coincides with compare() == Equal
+            return None
+        return hook
+    for name, h in sorted(F.hir.items()):
+        m = re.match(r"^<dmntk_feel::temporal::(date::FeelDate|FeelTime|FeelDateTime) as core::cmp::(PartialOrd|PartialEq)>::(partial_cmp|eq)$", name)
+        if not m or (m.group(3) == "eq" and m.group(1).endswith("FeelDate")):
+            continue
+        bad = []
+        for o in OUT:
+            ev = Evaluator(F, call_hook=make_hook2(o), inline=inl | wrappers)
+            try:
+                outs = ev.run_fn(name, [sym("a"), sym("b")])
+                vals = {repr(v) for _, v in outs}
+                got = outs[0][1] if len(vals) == 1 else ("multi", sorted(vals))
+            except Exception as e:
+                got = ("error", str(e))
+            if m.group(3) == "eq":
+                want = mk_bool(o == "Equal")
+            else:
+                want = value("None") if o is None else value("Some", value(o))
+            n += 1
+            if got != want:
+                bad.append("compare = %s: answers %s, expected %s" % (o, str(got)[:100], str(want)[:60]))
+        key = "trait:%s::%s" % (m.group(1).split("::")[-1], m.group(3))
+        if bad:
+            rep.violation(rid, key, "%s does not follow the temporal comparison compare(): %s" % (name, "; ".join(bad[:3])), "%s:%s" % (h["file"], h["line"]))
+        else:
+            rep.ok(rid, key, "agrees with compare() for all four outcomes")
     # the public wrappers (FeelDate / FeelTime / FeelDateTime) delegate to the helper of the same name with (self, other[, ...]) in order
     nw = 0
     for name, h in sorted(F.hir.items()):
